@@ -102,4 +102,36 @@ def cliSummary (loopEvents drainEvents : List Nat) : Nat :=
   let step := fun (acc x : Nat) => if cliSummaryAccumulates then (acc + x) % U256 else x % U256
   drainEvents.foldl step (loopEvents.foldl step 0)
 
+/-- A cost sum as the client computes it (`QuoteForAddress::price`, `StoreQuote::price`, `data_cost`, `vault_cost`,
+`register_cost`, `file_cost`): `checked = false` is ruint's `Sum` / `AddAssign` (`wrapping_add` from zero),
+`checked = true` a `checked_add` fold that reports overflow. -/
+def costSumWith (checked : Bool) (xs : List Nat) : Option Nat :=
+  if checked then (if xs.sum < U256 then some xs.sum else none)
+  else some (xs.foldl (fun a x => (a + x) % U256) 0)
+
+/-- the sums as the code stands (`Gen.Amount.costSumsChecked`) -/
+def costSum (xs : List Nat) : Option Nat := costSumWith costSumsChecked xs
+
+/-- the number an ant-cli cost line shows: the raw atto integer (`Amount`'s `Display`) or `AttoTokens`' `Display` -/
+def printedCost : CostKind → Nat → List Nat
+  | .atto, n => toChars (toDigits n)
+  | .tokens, n => display n
+
+def fromChars (s : List Nat) : List Nat := s.map (· - 48)
+
+/-- reading a printed decimal number: (all digits as one integer, number of fractional digits) -/
+def readNumber (s : List Nat) : Option (Nat × Nat) :=
+  let (u, f) := splitDot s
+  let fs := f.getD []
+  if isDecimal u && !u.isEmpty && isDecimal fs then
+    some (ofDigits (fromChars u) * 10 ^ fs.length + ofDigits (fromChars fs), fs.length)
+  else none
+
+/-- the printed number, read in the unit the line states ("AttoTokens" if labelled, whole tokens otherwise),
+is exactly `n` atto -/
+def lineDenotes (labelledAtto : Bool) (s : List Nat) (n : Nat) : Bool :=
+  match readNumber s with
+  | some (num, k) => if labelledAtto then num == n * 10 ^ k else num * 10 ^ 18 == n * 10 ^ k
+  | none => false
+
 end SafeNet.Amount
